@@ -6,6 +6,7 @@
         signature part = the Object tree between markers, relationship / content-type parts read back from what was written)
    `VSIX resign <cfg1: 7 fields> <cfg2: 7 fields> <parts>`     sign, then sign the result again
    `VSIX verify <b64table> <parts> <label>`    model of `verify` under the oracles attached to the parts
+   The model answers for the repaired code (`fx = true`).
    `VSIX path <fn> <arg>`                      clean | base | dir | ext | rel | uri | keep | targetback
 
    <parts> = `;`-separated `name:data(:K=value)*`, K = T (content types as `xml.Unmarshal` reads this part: `err` | defs/ovrs),
@@ -214,7 +215,7 @@ def showErr {α} : Res α → String
 
 def doSign (t : Tables) (c : Cfg) (keys : List (Bytes × Bytes)) (pkg : Pkg) : Res (Vsix.Signed × Tables) :=
   let E := envOf t true
-  match Relic.Vsix.sign E c pkg with
+  match Relic.Vsix.sign true E c pkg with
   | .ok s => .ok (s, selfTables E c keys s t)
   | .err e => .err e
   | .panic s => .panic s
@@ -239,7 +240,7 @@ def handle : List String → String
     | some (c, keys), some ids, some ps =>
       let t := tablesOf ps { ids := ids }
       match doSign t c keys (ps.map (·.1)) with
-      | .ok (s, t') => showSigned (envOf t true) c s (verify (envOf t' true) s.parts)
+      | .ok (s, t') => showSigned (envOf t true) c s (verify true (envOf t' true) s.parts)
       | r => showErr r
     | _, _, _ => "bad-op"
   | ["resign", h1, d1, _k1, s1, c1, t1, i1, h2, d2, _k2, s2, c2, t2, i2, parts] =>
@@ -250,7 +251,7 @@ def handle : List String → String
       | .ok (sa, ta) =>
         match doSign ta cb kb sa.parts with
         | .ok (sb, tb) =>
-          showSigned (envOf ta true) cb sb (verify (envOf tb true) sb.parts) ++
+          showSigned (envOf ta true) cb sb (verify true (envOf tb true) sb.parts) ++
             s!" first={b2s (cfgOk ca && refsOk sa.refs)} samekept={b2s (decide (sa.kept = sb.kept))} samerefs={b2s (decide (sa.refs.map (·.name) = sb.refs.map (·.name)))}"
         | r => "second-" ++ showErr r
       | r => showErr r
@@ -262,7 +263,7 @@ def handle : List String → String
         | _ => none), parseParts parts with
     | some b, some ps =>
       let t := tablesOf ps { b := b }
-      match verify (envOf t false) (ps.map (·.1)) with
+      match verify true (envOf t false) (ps.map (·.1)) with
       | .ok v => s!"ok {hashStr v.hash} {toHex v.key} #checked=" ++ ",".intercalate (v.checked.map fun x => toHex x.1)
       | r => showErr r
     | _, _ => "bad-op"
